@@ -101,6 +101,63 @@ def light_fns(crate):
     return _LIGHT[key]
 
 
+_THIN = {}
+PRIMITIVE_READS = ("peek", "next", "discard", "position", "peek_position", "byte_offset")
+
+
+def thin_wrappers(crate):
+    """Wrappers around single reader operations and error construction, found by what they do: loop-free local
+    functions of the parse module whose every call is a method of the Read trait, an Option / Result adaptor or
+    `?` plumbing, an error constructor of the error module, or another such wrapper (`next_or_eof(read)`,
+    `error(read, code)`, `Parser::peek_error(code)`, and whatever they are renamed or merged into).  The named
+    WRAPPERS are the ones of the reviewed tree."""
+    key = id(crate)
+    if key not in _THIN:
+        light = light_fns(crate)
+        std_ok = ("std::ops::Try::", "std::ops::FromResidual::", "std::option::Option::<", "std::result::Result::<",
+                  "std::convert::From::from", "std::convert::Into::into")
+        cand = {}
+        for f in crate.fns:
+            if f.path not in light or f.impl_trait:
+                continue
+            tys = [f.local_ty(i) for i in range(1, f.arg_count + 1)]
+            # takes the reader (a `&R` / `&mut R` with R: Read) or the parser itself
+            if not any(t.startswith("&") for t in tys):
+                continue
+            rt = f.local_ty(0)
+            if not (rt.endswith("error::Error") or rt.startswith("std::result::Result<") or rt in SCALARS or rt == "()"
+                    or rt.startswith("std::option::Option<u8")):
+                continue
+            cand[f.path] = f
+        thin = set(cand)
+        changed = True
+        while changed:
+            changed = False
+            for pth in sorted(thin):
+                f = cand[pth]
+                for _bi, t in f.calls():
+                    c = t["callee"]
+                    nm = F.callee_names(t)
+                    tgt = c.get("resolved") or c.get("path") or ""
+                    ok = ((c.get("trait") == "parse::read::Read" and c.get("method") in PRIMITIVE_READS) or tgt in thin or tgt in WRAPPERS
+                          or any(n.startswith(x) for n in nm for x in std_ok)
+                          or tgt.startswith("parse::error::Error::") or tgt.startswith("error::Error::")
+                          or (c.get("crate") == crate.name and scalar_fn(crate.fn(tgt)) if crate.fn(tgt) is not None else False))
+                    if not ok:
+                        thin.discard(pth)
+                        changed = True
+                        break
+        # a wrapper does something with the reader or builds an error; pure plumbing without either is not one
+        out = set()
+        for pth in thin:
+            f = cand[pth]
+            if any(t["callee"].get("trait") == "parse::read::Read" or (t["callee"].get("path") or "").endswith("Error::syntax")
+                   or (t["callee"].get("resolved") or t["callee"].get("path")) in thin - {pth} for _bi, t in f.calls()):
+                out.add(pth)
+        _THIN[key] = out
+    return _THIN[key]
+
+
 _PRINT = {}
 
 
@@ -135,7 +192,7 @@ def scalar_fn(b):
 def helper_inline(crate, named=()):
     """Inline policy: the named wrappers plus every loop-free local helper of the parse module and every
     local byte predicate `fn(u8) -> bool`."""
-    named = set(WRAPPERS) | set(named)
+    named = set(WRAPPERS) | set(named) | thin_wrappers(crate)
     light = light_fns(crate)
     # a named free function of the parse module tree keeps its role when it moves to a sibling module
     moved = {n.rsplit("::", 1)[1] for n in named if n.startswith("parse::") and "<" not in n}
@@ -153,10 +210,10 @@ def make_sim(crates, d, nth=0, extra=None, more_inline=(), opaque=None, max_dept
         hooks["opaque"] = opaque
     if light:
         return sim.Sim(crates, hooks=hooks, inline=helper_inline(crates[0], more_inline), max_depth=max_depth)
-    inl = set(WRAPPERS) | set(more_inline)
+    inl = set(WRAPPERS) | set(more_inline) | thin_wrappers(crates[0])
 
     def inline(a, b):
-        # named wrappers, plus any local byte predicate `fn(u8) -> bool` (is_delimiter and friends)
+        # wrappers around single reader operations, plus any local byte predicate `fn(u8) -> bool` (is_delimiter and friends)
         return b.path in inl or scalar_fn(b)
     return sim.Sim(crates, hooks=hooks, inline=inline, max_depth=max_depth)
 
